@@ -1311,6 +1311,32 @@ def declare_rules(ck):
             "for every shape and every d the index set (get_index_set<c,f>) resp. target set (get_target_set<d>) written under "
             "<Topology dim=d>/<Mapping dim=d> is the one the reader fills for that attribute value (input class: any mesh of that "
             "shape; a swapped pair stores e.g. vertices-at-edge into vertices-at-quad)", 30)
+    ck.rule("E12.dimension-recursion",
+            "a writer helper that emits the block of dimension d and recurses into the same helper for another dimension (TopoWriteHelper / "
+            "MappWriteHelper<Shape, d> -> <Shape, d-1>) reaches the recursive call on every path to a normal exit: an early return "
+            "(e.g. 'nothing to write for dimension d') may skip only the own block, never the blocks of the other dimensions (input class: a "
+            "mesh part without entities of the top dimension but with lower-dimensional ones - the reader then misses <Topology dim=1> "
+            "under topology=\"full\" and rejects the writer's own output)", 24)
+    ck.rule("E12.carrier-transfer",
+            "the objects that carry parsed data from the reader to the writer (Partition, PartitionSet, MeshPart, AttributeSet, index / target / "
+            "vertex sets ...: classes of kernel/geometry whose getters MeshFileWriter calls) keep it when they are moved or copied: in every "
+            "hand-written copy / move constructor and assignment operator each data member behind a getter the writer reads is defined from "
+            "the SAME member of the source - directly, or through a constructor it delegates to (defaulted arguments included: a delegating "
+            "move constructor must pass every field) (input class: a parsed partition with level != 0 moved into the PartitionSet)", 14)
+    ck.rule("E2.parsed-conversion",
+            "an integer obtained with String::parse that is converted to the other signedness keeps its value: a parsed UNSIGNED value "
+            "narrowed to a signed type (`int(_my_dim)`) is dominated by a rejection that bounds it from above, a parsed SIGNED value "
+            "converted to an unsigned one (`Index(_num_elems)`) by a rejection of negative values (documented Xml::*Error); for a field the "
+            "bound must hold whenever the callback that parses it returns normally (input class: dim=\"4294967295\" -> int(dim) == -1 -> "
+            "XASSERT abort in AttributeSet; size=\"1 -1\" -> a partition with 2^64-1 elements is accepted)", 4)
+    ck.rule("E7.parse-unsigned-sign",
+            "String::parse<T> for an unsigned T rejects a leading minus sign: the stream extraction it is built on accepts \"-1\" and "
+            "wraps it to 2^N-1 without setting failbit, so every unsigned attribute / token of a mesh file silently accepts negated "
+            "numbers (input class: <Attribute dim=\"-1\"> aborts in an XASSERT, size=\"-4 ..\" ends in std::length_error)", 1)
+    ck.rule("E7.attr-value-used",
+            "a field of a parser class that create() fills with the text of an attribute is read by some member function of the class "
+            "(used, validated or handed on): a value that is stored and never looked at is neither checked nor applied (input class: a root "
+            "markup whose mesh=\"...\" declaration contradicts the <Mesh type=...> it contains)", 6)
     ck.rule("E11.angles-roundtrip",
             "the yaw/pitch/roll values Extrude::write reconstructs from the rotation matrix reproduce that matrix when read back: with "
             "R(yaw,pitch,roll) taken from Tiny::Matrix::set_rotation_3d, the token->parameter binding and the revolution scaling from "
@@ -1425,6 +1451,11 @@ def run(tier):
     rule_loop_range(ck, W, pcs, facts)
     rule_vocabulary(ck, W, facts, pcs)
     rule_dim_binding(ck, W, facts)
+    rule_dimension_recursion(ck, W, facts)
+    rule_parsed_conversion(ck, W, facts)
+    rule_parse_sign(ck, W, facts)
+    rule_attr_value_used(ck, W, pcs, facts)
+    rule_carrier_transfer(ck, W, facts)
     rule_buffer_layout(ck, W, gfacts)
     rule_ini(ck, W, pfacts)
     rule_angles(ck, W, facts)
@@ -2478,6 +2509,78 @@ def rule_mandatory(ck, W, pcs, facts):
                     else:
                         rec["probs"].append("line %s: find(\"%s\") is dereferenced without an end() check although '%s' is %s" % (
                             d.get("l"), K, K, "optional" if checks else "not validated (attribs() returns false)"))
+        # look-ups through a shared helper: `helper(attrs, "K")` whose body searches its map parameter for its key parameter
+        # (`const String* find_attrib(attrs, key)`): the look-up of K happens there, the value is used here
+        for n in f.nodes():
+            if n.get("k") not in ("Call", "MCall") or (n.get("ccls") or "").startswith("std::") or (n.get("callee") or "").startswith("std::"):
+                continue
+            args = n.get("a", [])
+            ai = [i for i, a in enumerate(args) if strip(a) is not None and strip(a).get("k") == "Ref" and strip(a).get("n") == attrs and strip(a).get("dk") == "param"]
+            if len(ai) != 1:
+                continue
+            g = W.resolve(n, f) or W.fns.get(n.get("cfull"))
+            if g is None or g.cfg is None or ai[0] >= len(g.params) or table is None:
+                continue
+            mp = g.params[ai[0]].get("n")
+            for j, a in enumerate(args):
+                K = str_value(a)
+                if K is None or j >= len(g.params) or not g.params[j].get("n"):
+                    continue
+                kp = g.params[j]["n"]
+                lookups = [x for x in g.nodes() if x.get("k") == "MCall" and x.get("n") in ("find", "at") and strip(x.get("obj")) is not None
+                           and strip(x["obj"]).get("k") == "Ref" and strip(x["obj"]).get("n") == mp and x.get("a")
+                           and strip(x["a"][0]) is not None and strip(x["a"][0]).get("k") == "Ref" and strip(x["a"][0]).get("n") == kp]
+                if not lookups:
+                    continue
+                key = "%s::create/%s" % (pc.short, K)
+                rec = seen.setdefault(key, {"probs": [], "unk": [], "fn": f, "line": n.get("l"), "n": 0})
+                rec["n"] += 1
+                if K not in table:
+                    if checks:
+                        rec["probs"].append("attribute '%s' is looked up (through %s()) but not registered in attribs(): the scanner rejects it as unexpected" % (K, g.name))
+                    continue
+                if table.get(K) and checks:
+                    continue          # mandatory and validated by the scanner: present
+                # (a) inside the helper every dereference of the look-up is guarded by the end() test
+                eg = W.ecfg(g)
+                for lk in lookups:
+                    pv = eg.parent(lk)
+                    while pv is not None and pv.get("k") == "Cast":
+                        pv = eg.parent(pv)
+                    if lk.get("n") == "at" or (pv is not None and pv.get("k") == "OpCall" and pv.get("op") in ("->", "*")):
+                        rec["probs"].append("%s() dereferences the look-up of its key directly (line %s) although '%s' is optional" % (g.name, lk.get("l"), K))
+                    elif pv is not None and pv.get("k") == "Var":
+                        itn = pv["n"]
+                        for x in g.nodes():
+                            if x.get("k") == "OpCall" and x.get("op") in ("->", "*") and strip(x["a"][0]).get("k") == "Ref" and strip(x["a"][0])["n"] == itn:
+                                a_, b_ = sorted((itn, "%s.end()" % mp))
+                                if not find_fact(eg.facts_at(x) or set(), "==", A=a_, B=b_, truth=False):
+                                    rec["probs"].append("%s() dereferences `%s` at line %s without the end() test although '%s' is optional" % (g.name, itn, x.get("l"), K))
+                    else:
+                        rec["unk"].append("%s(): use of the look-up result `%s` is not followed" % (g.name, render(pv or lk)[:40]))
+                # (b) a pointer result is dereferenced here only where it was tested (it is null exactly if K is absent)
+                rt = (g.type(g.d.get("rt")) if g.d.get("rt") is not None else "") or ""
+                e = e or W.ecfg(f)
+                pv = e.parent(n)
+                while pv is not None and pv.get("k") == "Cast":
+                    pv = e.parent(pv)
+                if pv is not None and pv.get("k") == "Var":
+                    rn = pv["n"]
+                    for x in f.nodes():
+                        der = None
+                        if x.get("k") == "Un" and x.get("op") == "*" and strip(x["e"]) is not None and strip(x["e"]).get("k") == "Ref" and strip(x["e"]).get("n") == rn:
+                            der = x
+                        elif x.get("k") in ("Member", "MCall") and x.get("arrow") and strip(x.get("b") or x.get("obj")) is not None \
+                                and strip(x.get("b") or x.get("obj")).get("k") == "Ref" and strip(x.get("b") or x.get("obj")).get("n") == rn:
+                            der = x
+                        if der is None:
+                            continue
+                        fs = e.facts_at(der) or set()
+                        nonnull = find_fact(fs, "b", A=rn, truth=True) or [f_ for f_ in fs if f_[0] == "==" and not f_[3] and rn in (f_[1], f_[2]) and ({f_[1], f_[2]} & {"nullptr", "0", "NULL"})]
+                        if not nonnull:
+                            rec["probs"].append("line %s: the result of %s(%s, \"%s\") is dereferenced without a null test although '%s' is optional" % (der.get("l"), g.name, attrs, K, K))
+                elif "*" in rt:
+                    rec["unk"].append("line %s: the pointer returned by %s(%s, \"%s\") is used in `%s`, which is not followed" % (n.get("l"), g.name, attrs, K, render(pv or n)[:40]))
     for key, rec in sorted(seen.items()):
         if rec["unk"] and not rec["probs"]:
             undecided(ck, "E7.mandatory-attr", key, "; ".join(sorted(set(rec["unk"]))))
@@ -2674,33 +2777,41 @@ def rule_scanner(ck, W, sfacts):
                     if x is not None and ("@" + stack) in e._kills(x):
                         shr = True
         need_pre.setdefault((f.full, stack), []).append((f, n, False if shr else None))
+    def class_sites(f):
+        """call sites of a member function on `this` inside the class: a use in a shared helper is one instance per call site
+        (de-duplicating two identical blocks into a helper must not reduce what is checked)"""
+        out = []
+        for g in fns:
+            for c in g.nodes():
+                if c.get("k") == "MCall" and c.get("cfull") == f.full and (c.get("obj") is None or strip(c["obj"]).get("k") == "This"):
+                    out.append((g, c))
+        return out
     ordn = {}
     for (full, stack), lst in sorted(need_pre.items()):
         for f, n, st in lst:
             base = "Scanner::%s/%s.%s" % (f.name, stack, n["n"])
             ordn[base] = ordn.get(base, 0) + 1
             key = "%s#%d" % (base, ordn[base])
+            sites = class_sites(f)
+            keys = [key] if len(sites) <= 1 else ["%s@%s#%d" % (key, g.name, k + 1) for k, (g, c) in enumerate(sites)]
             if st is True:
-                ck.ob("E7.scanner-stack", key, True, "dominated by a non-empty check in the function", f.file, n.get("l"))
+                for key_ in keys:
+                    ck.ob("E7.scanner-stack", key_, True, "dominated by a non-empty check in the function", f.file, n.get("l"))
             elif st is False:
-                ck.ob("E7.scanner-stack", key, False,
-                      "`%s` is reached after the stack may have shrunk, without a non-empty check: a surplus terminator / closed markup pops an empty stack" % render(n)[:50], f.file, n.get("l"))
+                for key_ in keys:
+                    ck.ob("E7.scanner-stack", key_, False,
+                          "`%s` is reached after the stack may have shrunk, without a non-empty check: a surplus terminator / closed markup pops an empty stack" % render(n)[:50], f.file, n.get("l"))
             else:
                 # obligation moves to the call sites inside the class
-                sites = []
-                for g in fns:
-                    for c in g.nodes():
-                        if c.get("k") == "MCall" and c.get("cfull") == f.full and (c.get("obj") is None or strip(c["obj"]).get("k") == "This"):
-                            sites.append((g, c))
                 if not sites:
                     undecided(ck, "E7.scanner-stack", key, "`%s` relies on a non-empty stack as a precondition of %s(), which has no caller inside the class" % (render(n)[:50], f.name))
                     continue
-                probs = []
-                for g, c in sites:
+                for key_, (g, c) in zip(keys, sites):
                     fs = W.ecfg(g).facts_at(c)
-                    if fs is not None and not find_fact(fs, "<", A="0", B="%s.size()" % stack, truth=True):
-                        probs.append("%s() calls %s() at line %s where the stack may be empty" % (g.name, f.name, c.get("l")))
-                ck.ob("E7.scanner-stack", key, not probs, "; ".join(probs) or "non-empty at all %d call site(s) of %s()" % (len(sites), f.name), f.file, n.get("l"))
+                    bad_ = fs is not None and not find_fact(fs, "<", A="0", B="%s.size()" % stack, truth=True)
+                    ck.ob("E7.scanner-stack", key_, not bad_,
+                          ("%s() calls %s() at line %s where the stack may be empty" % (g.name, f.name, c.get("l"))) if bad_ else "non-empty at the call site in %s()" % g.name,
+                          f.file, n.get("l"))
 
     # create/close pairing: a parser is only popped from the stack after its close() callback ran
     for f in fns:
@@ -2716,7 +2827,9 @@ def rule_scanner(ck, W, sfacts):
                 if fs is None:
                     continue
                 if find_fact(fs, "b", A="closed(%s.back())" % stack, truth=True):
-                    ck.ob("E7.scanner-close-pairing", key, True, "every path to the pop passes close() of the top parser", f.file, n.get("l"))
+                    sites = class_sites(f)
+                    for key_ in ([key] if len(sites) <= 1 else ["%s@%s#%d" % (key, g.name, k + 1) for k, (g, c) in enumerate(sites)]):
+                        ck.ob("E7.scanner-close-pairing", key_, True, "every path to the pop passes close() of the top parser", f.file, n.get("l"))
                     continue
                 # the other callbacks of the MarkupParser interface (attribs/create/markup/content) are not close()
                 sus = suspects(W, e, n, {"@" + stack}, ignore=r"^FEAT::Xml::MarkupParser::")
@@ -4010,6 +4123,436 @@ def rule_dim_binding(ck, W, facts):
 
 
 # -------------------------------------------------------------------------------------------------
+# E12.dimension-recursion: the per-dimension writer helpers visit every dimension
+# -------------------------------------------------------------------------------------------------
+
+def rule_dimension_recursion(ck, W, facts):
+    seen = {}
+    em = Emitter(W, ck)
+    for f in facts.functions:
+        if f.tk == "pattern" or f.cfg is None or not f.cls or not re.search(r"mesh_file_writer\.hpp$", f.file):
+            continue
+        base = strip_targs(f.cls)
+        rec = [n for n in f.nodes() if n.get("k") in ("Call", "MCall") and (n.get("callee") or "").rsplit("::", 1)[-1] == f.name
+               and n.get("ccls") and strip_targs(n["ccls"]) == base and n["ccls"] != f.cls]
+        if not rec:
+            continue
+        key = "%s::%s" % (short(f.cls) + (re.search(r"<.*>$", f.cls).group(0).replace("FEAT::", "") if re.search(r"<.*>$", f.cls) else ""), f.name)
+        ids = {n["i"] for n in rec if "i" in n}
+        ok, bad = f.cfg.must_pass(lambda n: n.get("i") in ids)
+        detail = "the recursion into %s is reached on every path" % short(rec[0]["ccls"])
+        tgt = [g for n in rec for g in em.targets(n)]
+        if not ok and tgt and not any(em.emits(g) for g in tgt):
+            ok, detail = True, "the recursion ends here: %s::%s emits nothing" % (short(rec[0]["ccls"]), f.name)
+        if not ok:
+            pth = f.cfg.path_to(bad[0], avoid={b for b in f.cfg.blocks if any(i in ids for i in f.cfg.blocks[b]["el"])}) or []
+            lines = [l for l in f.cfg.block_lines(pth) if l]
+            detail = ("a path (lines %s) returns without the recursive call %s::%s (line %s): the blocks of the other dimensions are not written when "
+                      "this dimension is skipped" % (lines[-4:], re.sub(r"FEAT::(Geometry::|Shape::)?", "", rec[0]["ccls"]), f.name, rec[0].get("l")))
+        r_ = seen.setdefault(key, {"ok": True, "detail": detail, "fn": f})
+        if not ok:
+            r_["ok"], r_["detail"] = False, detail
+    for key, r_ in sorted(seen.items()):
+        ck.ob("E12.dimension-recursion", key, r_["ok"], r_["detail"], r_["fn"].file, r_["fn"].line)
+
+
+# -------------------------------------------------------------------------------------------------
+# E2.parsed-conversion / E7.parse-unsigned-sign / E7.attr-value-used
+# -------------------------------------------------------------------------------------------------
+
+def int_kind(t):
+    """'u' / 's' for an unsigned / signed integer type string, else None"""
+    t = (t or "").replace("const ", "").replace("&", "").strip()
+    if re.search(r"\b(unsigned|Index|IndexType|size_t|uint\d+_t|size_type)\b", t) and "*" not in t and "<" not in t:
+        return "u"
+    if re.fullmatch(r"(signed )?(int|long|long long|short|std::int\d+_t|int\d+_t|std::ptrdiff_t|ptrdiff_t)", t):
+        return "s"
+    return None
+
+
+def rule_parsed_conversion(ck, W, facts):
+    rule = "E2.parsed-conversion"
+    cfs_all = class_functions(facts)
+    seen = {}
+    for f in reader_functions(facts):
+        cfs = cfs_all.get(f.cls, [f])
+        for n in f.nodes():
+            if not (n.get("k") == "MCall" and n.get("callee") == "FEAT::String::parse" and n.get("a")):
+                continue
+            tgt = strip(n["a"][0])
+            if tgt is None:
+                continue
+            kind = int_kind(f.ntype(tgt))
+            if kind is None:
+                continue
+            X = norm(tgt)
+            field = is_this_field(tgt)
+            if not field and not (tgt.get("k") == "Ref" and tgt.get("dk") == "local"):
+                continue          # elements of containers: bounded by the rules of the container (index-range, sizes)
+            # conversions of X to the other signedness
+            scope = cfs if field else [f]
+            convs = []
+            for g in scope:
+                if g.cfg is None:
+                    continue
+                for c in g.nodes():
+                    if c.get("k") == "Cast" and c.get("ck") in ("functional", "static", "cstyle") and c.get("e") is not None and norm(c["e"]) == X \
+                       and (not field or is_this_field(strip(c["e"]))):
+                        to = int_kind(c.get("to") if isinstance(c.get("to"), str) else g.ntype(c))
+                        if to is not None and to != kind:
+                            convs.append((g, c))
+            if not convs:
+                continue
+            key = "%s::%s/%s" % (short(f.cls), f.name, X)
+            rec = seen.setdefault(key, {"probs": [], "unk": [], "fn": f, "line": n.get("l"), "n": 0})
+            rec["n"] += 1
+
+            def bounded(fs):
+                for fa in fs or ():
+                    if fa[0] == "==" and fa[3] and X in (fa[1], fa[2]):
+                        return True
+                    if fa[0] != "<":
+                        continue
+                    if kind == "u":
+                        # X < B  or  not (B < X)
+                        if (fa[1] == X and fa[3]) or (fa[2] == X and not fa[3]):
+                            return True
+                    else:
+                        # not (X < K), K >= 0   or   K < X, K >= -1... (literal K)
+                        if fa[1] == X and not fa[3] and re.fullmatch(r"\d+", fa[2] or ""):
+                            return True
+                        if fa[2] == X and fa[3] and re.fullmatch(r"\d+", fa[1] or ""):
+                            return True
+                return False
+            e = W.ecfg(f)
+            where = []
+            if field:
+                for b in e.normal_exits():
+                    if not bounded(e.facts_at_end(b, e.exit)):
+                        where.append("%s() returns normally" % f.name)
+                        break
+            for g, c in convs:
+                if g is f:
+                    fs = e.facts_at(c)
+                    if fs is not None and not bounded(fs) and not field:
+                        where.append("line %s" % c.get("l"))
+            if where:
+                g0, c0 = convs[0]
+                what = ("`%s` (line %s, %s)" % (render(c0)[:30], c0.get("l"), g0.name))
+                sus = suspects(W, e, None, vars_of(tgt), anywhere=True)
+                msg = ("the parsed %s value %s is converted to %s in %s without a rejection that bounds it %s (%s): %s" % (
+                    "unsigned" if kind == "u" else "signed", X, "a signed type" if kind == "u" else "an unsigned type", what,
+                    "from above" if kind == "u" else "to non-negative values", "; ".join(where[:2]),
+                    "a value >= 2^31 becomes negative" if kind == "u" else "a negative value becomes a huge count"))
+                if sus:
+                    rec["unk"].append(msg + "; but %s may restrict it" % sus)
+                else:
+                    rec["probs"].append(msg)
+    for key, rec in sorted(seen.items()):
+        if rec["unk"] and not rec["probs"]:
+            undecided(ck, rule, key, "; ".join(sorted(set(rec["unk"]))))
+            continue
+        ck.ob(rule, key, not rec["probs"], "; ".join(sorted(set(rec["probs"]))) or "range-checked before the conversion (%d instantiation(s))" % rec["n"],
+              rec["fn"].file, rec["line"])
+
+
+def rule_parse_sign(ck, W, facts):
+    rule = "E7.parse-unsigned-sign"
+    try:
+        sf = featlib.extract("tu/c11_meshio.cpp", files=featlib.repo_path("kernel/util/string\\.hpp"), names=r"FEAT::String::parse")
+    except (featlib.AnalysisBroken, OSError) as ex:
+        ck.incomplete(rule, "String::parse not extracted: %s" % str(ex)[:120])
+        return
+    ck.tu(sf)
+    insts = [g for g in sf.functions if g.tk != "pattern" and g.qn == "FEAT::String::parse" and g.body is not None and g.params
+             and int_kind(g.type(g.params[0]["t"])) == "u"]
+    if not insts:
+        ck.incomplete(rule, "no instantiation of String::parse for an unsigned type found")
+        return
+    probs, unk = [], []
+    for g in insts:
+        nodes = list(g.nodes())
+        minus = [x for x in nodes if (x.get("k") == "Char" and x.get("v") == 45) or (x.get("k") == "Str" and "-" in str(x.get("v")))]
+        safe_conv = [x for x in nodes if x.get("k") in ("Call", "MCall") and re.search(r"from_chars|stoul|strtou", x.get("callee") or "")]
+        extr = [x for x in nodes if x.get("k") == "OpCall" and x.get("op") == ">>"]
+        if minus:
+            e = ECFG(g, W.neverret or set())
+            ok = False
+            for b in e.el:
+                br = e.branch(b)
+                if br is None or not any(y in minus or any(z is y for z in minus) for y in walk(br[0])):
+                    continue
+                for s_ in e.succ.get(b, []):
+                    reach = e.reachable(s_)
+                    rets = [x for bb in reach for x in (g.by_id(i) for i in e.el[bb]) if x is not None and x.get("k") == "Return"]
+                    if rets and all(strip(r.get("e")) is not None and strip(r["e"]).get("k") == "Bool" and not strip(r["e"])["v"] for r in rets):
+                        ok = True
+            if not ok:
+                unk.append("%s mentions '-' but no branch on it returns false" % g.full[-40:])
+        elif safe_conv and not extr:
+            unk.append("%s converts with %s; its handling of a sign is not modelled" % (g.full[-40:], safe_conv[0].get("callee")))
+        elif extr:
+            probs.append("parse<%s> extracts with `iss >> t` and returns !iss.fail(): for an unsigned target the extraction accepts \"-1\" and stores 2^N-1 "
+                         "without failbit, no branch rejects a leading '-'" % g.type(g.params[0]["t"]).replace("&", "").strip())
+        else:
+            unk.append("%s: conversion not recognised" % g.full[-40:])
+    g0 = insts[0]
+    if unk and not probs:
+        undecided(ck, rule, "String::parse<unsigned>", "; ".join(sorted(set(unk))))
+    else:
+        ck.ob(rule, "String::parse<unsigned>", not probs, "; ".join(sorted(set(probs))[:2]) or "a leading '-' is rejected (%d unsigned instantiation(s))" % len(insts), g0.file, g0.line)
+
+
+def rule_attr_value_used(ck, W, pcs, facts):
+    rule = "E7.attr-value-used"
+    cfs_all = class_functions(facts)
+    groups = {}
+    for pc in pcs:
+        groups.setdefault(pc.short, []).append(pc)
+    for name, insts in sorted(groups.items()):
+        res = {}
+        for pc in insts:
+            create = pc.m["create"]
+            if len(create.params) < 4 or not create.params[3].get("n"):
+                continue
+            attrs = create.params[3]["n"]
+            cfs = [g for g in cfs_all.get(pc.cls, []) if g.body is not None]
+            for n in create.nodes():
+                lhs = rhs = None
+                if n.get("k") == "Assign" and n.get("op") == "=":
+                    lhs, rhs = n["lhs"], n["rhs"]
+                elif n.get("k") == "OpCall" and n.get("op") == "=" and len(n.get("a", [])) == 2:
+                    lhs, rhs = n["a"][0], n["a"][1]
+                if lhs is None or not is_this_field(lhs):
+                    continue
+                # the right-hand side is (the text of) an attribute: attrs.find(K)->second / it->second with it = attrs.find(K) / *helper(attrs, K)
+                K = None
+                for z in walk_init(rhs):
+                    if z.get("k") in ("MCall", "Call") and z.get("a") and any(strip(a) is not None and strip(a).get("k") == "Ref" and strip(a).get("n") == attrs for a in [z.get("obj")] + list(z.get("a", [])) if a is not None):
+                        for a in z.get("a", []):
+                            if str_value(a) is not None:
+                                K = str_value(a)
+                if K is None:
+                    r = root_var(rhs)
+                    if r:
+                        li = local_init(create, r)
+                        for z in walk(li or {}):
+                            if z.get("k") in ("MCall", "Call") and z.get("a") and str_value(z["a"][-1] if z.get("k") == "Call" else z["a"][0]) is not None \
+                               and attrs in vars_of(z):
+                                K = str_value(z["a"][-1] if z.get("k") == "Call" else z["a"][0])
+                if K is None:
+                    continue
+                fld = strip(lhs)["n"]
+                reads = 0
+                for g in cfs:
+                    lhs_ids = {id(strip(x["lhs"])) for x in g.nodes() if x.get("k") == "Assign"} | \
+                              {id(strip(x["a"][0])) for x in g.nodes() if x.get("k") == "OpCall" and x.get("op") == "=" and x.get("a")}
+                    reads += sum(1 for x in g.nodes() if x.get("k") == "Member" and x.get("n") == fld and is_this_field(x) and id(x) not in lhs_ids)
+                for g in cfs:
+                    for i_ in (g.d.get("inits") or []):
+                        if i_.get("init") is not None and ("@" + fld) in vars_of(i_["init"]):
+                            reads += 1
+                res.setdefault((fld, K), []).append((reads, create, n))
+        for (fld, K), lst in sorted(res.items()):
+            dead = [x for x in lst if x[0] == 0]
+            f0, n0 = lst[0][1], lst[0][2]
+            ck.ob(rule, "%s::create/%s<-%s" % (name, fld, K), not dead,
+                  ("%s receives the value of attribute '%s' but no member function of %s ever reads it: the declared value is neither validated nor applied" % (fld, K, name))
+                  if dead else "read by the class (%d instantiation(s))" % len(lst), f0.file, n0.get("l"))
+
+
+# -------------------------------------------------------------------------------------------------
+# E12.carrier-transfer: copy / move operations of the classes that carry parsed data to the writer
+# -------------------------------------------------------------------------------------------------
+
+CARRIER_FILES = featlib.repo_path("kernel/geometry/(partition_set|attribute_set|index_set|target_set|vertex_set|mesh_part|conformal_mesh|mesh_atlas)\\.hpp")
+
+
+def _unwrap_value(e):
+    """std::move / std::forward / casts / copy constructions around an expression"""
+    e = strip(e)
+    for _ in range(8):
+        if e is None:
+            return None
+        if e.get("k") == "Call" and e.get("callee") in ("std::move", "std::forward") and len(e.get("a", [])) == 1:
+            e = strip(e["a"][0])
+        elif e.get("k") in ("Construct", "TempObj") and len(e.get("a", [])) == 1:
+            e = strip(e["a"][0])
+        else:
+            break
+    return e
+
+
+def _getter_fields(g):
+    """fields of the object a parameter-less const member function reads for its single returned value"""
+    if g.body is None or g.params:
+        return set()
+    rets = [x for x in g.nodes() if x.get("k") == "Return"]
+    if len(rets) != 1 or any(x.get("k") in ("Assign", "For", "While", "If") for x in g.nodes()):
+        return set()
+    return {v[1:] for v in vars_of(rets[0].get("e")) if v.startswith("@")}
+
+
+def rule_carrier_transfer(ck, W, facts):
+    rule = "E12.carrier-transfer"
+    try:
+        cf = featlib.extract("tu/c11_meshio.cpp", files=CARRIER_FILES)
+    except (featlib.AnalysisBroken, OSError) as ex:
+        ck.incomplete(rule, "carrier classes not extracted: %s" % str(ex)[:120])
+        return
+    ck.tu(cf)
+    by_cls, by_decl = {}, {}
+    for g in cf.functions:
+        if g.tk == "pattern" or not g.cls:
+            continue
+        by_cls.setdefault(g.cls, []).append(g)
+        if g.d.get("decl") is not None:
+            by_decl[g.d["decl"]] = g
+    # 1. members behind the getters the writer calls
+    read = {}
+    for f in facts.functions:
+        if f.tk == "pattern" or f.body is None or not re.search(r"mesh_file_writer\.hpp$", f.file):
+            continue
+        for n in f.nodes():
+            if n.get("k") == "MCall" and n.get("ccls") in by_cls and not n.get("a"):
+                for g in by_cls[n["ccls"]]:
+                    if g.name == n.get("n") and g.d.get("const") and not g.params:
+                        fl = _getter_fields(g)
+                        if fl:
+                            read.setdefault(n["ccls"], {}).setdefault(n.get("n"), set()).update(fl)
+
+    def is_other(e, other):
+        e = _unwrap_value(e)
+        return e is not None and e.get("k") == "Ref" and e.get("n") == other
+
+    def source_members(e, other, cls):
+        """members of `other` an expression reads (fields and getters of the class)"""
+        out = set()
+        for x in walk(e):
+            if x.get("k") == "Member" and x.get("field") and x.get("b") is not None and is_other(x["b"], other):
+                out.add(x["n"])
+            elif x.get("k") == "MCall" and x.get("obj") is not None and is_other(x["obj"], other) and not x.get("a"):
+                for g in by_cls.get(cls, []):
+                    if g.name == x.get("n") and not g.params:
+                        out |= _getter_fields(g)
+        return out
+
+    def substitute(e, bind):
+        import copy as _copy
+        c = _copy.deepcopy(e)
+        if c.get("k") == "Ref" and c.get("d") in bind:
+            return bind[c["d"]]
+        for x in walk(c):
+            for key_, ch in list(x.items()):
+                if isinstance(ch, dict) and ch.get("k") == "Ref" and ch.get("d") in bind:
+                    x[key_] = bind[ch["d"]]
+                elif isinstance(ch, list):
+                    for i_, y in enumerate(ch):
+                        if isinstance(y, dict) and y.get("k") == "Ref" and y.get("d") in bind:
+                            ch[i_] = bind[y["d"]]
+        return c
+
+    def ctor_inits(f, depth=0):
+        """{member: initialiser expression} of a constructor, delegation followed (parameters of the target replaced by the arguments)"""
+        out, unknown = {}, []
+        for it in f.d.get("inits") or []:
+            if it.get("member"):
+                out[it["member"]] = it.get("init")
+            elif it.get("delegating"):
+                call = strip(it.get("init"))
+                h = by_decl.get((call or {}).get("cdecl"))
+                if h is None or depth > 2 or h is f:
+                    unknown.append("delegation to a constructor that was not resolved")
+                    continue
+                bind = {p_["d"]: a for p_, a in zip(h.params, call.get("a", [])) if "d" in p_}
+                sub, unk = ctor_inits(h, depth + 1)
+                unknown += unk
+                for m, e in sub.items():
+                    out[m] = substitute(e, bind) if e is not None else None
+                # assignments in the body of the target constructor
+                for m, e in body_assignments(h)[0].items():
+                    out[m] = substitute(e[-1], bind)
+        return out, unknown
+
+    def body_assignments(f):
+        """({member: [rhs expressions]}, unknown constructs) of the statements of a copy-like operation"""
+        out, unknown = {}, []
+        for n in f.nodes():
+            k = n.get("k")
+            lhs = rhs = None
+            if k == "Assign" and n.get("op") == "=":
+                lhs, rhs = n["lhs"], n["rhs"]
+            elif k == "OpCall" and n.get("op") == "=" and len(n.get("a", [])) == 2:
+                lhs, rhs = n["a"][0], n["a"][1]
+            elif k == "Call" and n.get("callee") == "std::swap" and len(n.get("a", [])) == 2:
+                for x, y in ((n["a"][0], n["a"][1]), (n["a"][1], n["a"][0])):
+                    r = root_var(x)
+                    if r and is_this_field_root(x, r):
+                        out.setdefault(r, []).append(y)
+                continue
+            elif k == "MCall" and n.get("obj") is not None and not n.get("cconst") and n.get("a"):
+                r = root_var(n["obj"])
+                if r and is_this_field_root(n["obj"], r):
+                    for a in n["a"]:
+                        out.setdefault(r, []).append(a)        # _m.swap(other._m), _m.clone(other._m), _m.assign(...)
+                    continue
+            if lhs is not None:
+                r = root_var(lhs)
+                if r and is_this_field_root(lhs, r):
+                    out.setdefault(r, []).append(rhs)
+                continue
+            if k in ("MCall", "Call") and any(strip(a) is not None and strip(a).get("k") == "Ref" and strip(a).get("dk") == "param" for a in n.get("a", [])) \
+               and not MODELLED_CALLEES.match(n.get("callee") or "") and n.get("callee") not in ("std::move", "std::forward", "std::swap"):
+                own = k == "MCall" and (n.get("obj") is None or strip(n["obj"]).get("k") == "This")
+                if own or k == "Call":
+                    unknown.append("`%s` receives the source object" % render(n)[:50])
+        return out, unknown
+
+    for cls in sorted(read):
+        fields = sorted(set().union(*read[cls].values()))
+        ops = []
+        for f in by_cls[cls]:
+            if f.body is None or len(f.params) != 1:
+                continue
+            t = (f.type(f.params[0]["t"]) or "").replace("const ", "").strip()
+            base_t = re.sub(r"\s*&&?$", "", t)
+            same = base_t == cls or strip_targs(base_t).rsplit("::", 1)[-1] == strip_targs(cls).rsplit("::", 1)[-1]
+            if not same or not t.endswith("&"):
+                continue
+            if f.d.get("ctor"):
+                ops.append((f, "move-ctor" if t.endswith("&&") else "copy-ctor"))
+            elif f.name == "operator=":
+                ops.append((f, "move-assign" if t.endswith("&&") else "copy-assign"))
+        for f, kind in ops:
+            other = f.params[0].get("n")
+            if not other:
+                ck.incomplete(rule, "%s::%s: unnamed source parameter" % (short(cls), kind))
+                continue
+            inits, unk1 = ctor_inits(f) if f.d.get("ctor") else ({}, [])
+            body, unk2 = body_assignments(f)
+            unknown = unk1 + unk2
+            for m in fields:
+                key = "%s::%s/%s" % (cls.replace("FEAT::Geometry::", "").replace("FEAT::", ""), kind, m)
+                exprs = ([inits[m]] if inits.get(m) is not None else []) + body.get(m, [])
+                srcs = set()
+                for e in exprs:
+                    srcs |= source_members(e, other, cls)
+                whole = any(is_other(e, other) for e in exprs)
+                if m in srcs or whole:
+                    ck.ob(rule, key, True, "%s <- %s.%s" % (m, other, m), f.file, f.line)
+                elif unknown:
+                    undecided(ck, rule, key, "%s is not seen taken over from the source, but %s" % (m, "; ".join(unknown[:2])))
+                elif exprs:
+                    ck.ob(rule, key, False, "%s of the %s is defined from `%s`, not from %s.%s: the writer emits %s through %s, so a %s object loses the value that was parsed" % (
+                        m, "new object" if "ctor" in kind else "target", "; ".join(render(e)[:40] for e in exprs[:2]), other, m, m,
+                        "/".join(sorted(g_ for g_, fl in read[cls].items() if m in fl)) + "()", "moved" if "move" in kind else "copied"), f.file, f.line)
+                else:
+                    ck.ob(rule, key, False, "%s is not taken over from %s (it keeps its %s): the writer emits it through %s, so a %s object loses the value that was parsed" % (
+                        m, other, "default value" if "ctor" in kind else "old value", "/".join(sorted(g_ for g_, fl in read[cls].items() if m in fl)) + "()",
+                        "moved" if "move" in kind else "copied"), f.file, f.line)
+
+
+# -------------------------------------------------------------------------------------------------
 # E12.buffer-layout: Graph::serialize  <->  Graph(const std::vector<char>&)   (cursor form)
 # -------------------------------------------------------------------------------------------------
 
@@ -4200,6 +4743,9 @@ class CursorInterp:
                 self.unknown.append("statement `%s` at line %s is not modelled" % (k, n.get("l")))
             elif k == "Call" and n.get("callee") in ("std::copy", "std::copy_n") and len(n.get("a", [])) == 3:
                 self.copy_call(n)
+            elif k == "Call" and n.get("callee") == "std::transform" and len(n.get("a", [])) == 4 and self.is_conversion(n["a"][3]):
+                # element-wise copy with a value conversion (`[](u64 t) { return Index(t); }`): the layout is that of std::copy
+                self.copy_call(dict(n, callee="std::copy", a=n["a"][:3]))
             elif k == "Un" and n.get("op") in ("++", "--") and strip(n["e"]).get("k") == "Ref" and strip(n["e"])["n"] in self.ptr:
                 self.unknown.append("line %s: cursor `%s` advanced by %s outside a modelled form" % (n.get("l"), strip(n["e"])["n"], n.get("op")))
             elif k in ("Call", "MCall", "OpCall") and not (k == "Call" and n.get("callee") == "FEAT::assertion") \
@@ -4223,6 +4769,32 @@ class CursorInterp:
                             self.slot_nodes[int(off)] = n
         except Unknown as ex:
             self.unknown.append("line %s: %s" % (n.get("l"), ex))
+
+    def is_conversion(self, fnode):
+        """functor that returns its single argument, possibly through value conversions: a lambda (directly or in a never
+        re-assigned local) whose body is `return T(param);`"""
+        x = strip(fnode)
+        for _ in range(3):
+            if x is None:
+                return False
+            if x.get("k") == "Ref" and x.get("dk") == "local":
+                if any((y.get("k") == "Assign" and root_var(y["lhs"]) == x["n"]) for y in self.fn.nodes()):
+                    return False
+                x = local_init(self.fn, x["n"])
+            elif x.get("k") in ("Construct", "TempObj", "Cast") and (x.get("e") is not None or len(x.get("a", [])) == 1):
+                x = strip(x["e"] if x.get("e") is not None else x["a"][0])
+            else:
+                break
+        if x is None or x.get("k") != "Lambda" or x.get("captures"):
+            return False
+        body = x.get("body") or {}
+        st = body.get("s", []) if body.get("k") == "Block" else [body]
+        if len(st) != 1 or st[0].get("k") != "Return":
+            return False
+        e = strip(st[0].get("e"))
+        while e is not None and e.get("k") in ("Construct", "TempObj") and len(e.get("a", [])) == 1:
+            e = strip(e["a"][0])
+        return e is not None and e.get("k") == "Ref" and e.get("dk") == "param"
 
     def copy_call(self, n):
         """std::copy(first, last, dest) / std::copy_n(first, count, dest) between a member container and the cursor"""
